@@ -168,6 +168,26 @@ def _greedy_desc(log, restored):
     return True
 
 
+def _check_redo(chain, exact, pre, post, right_after_undo, bad, *a):
+    """k undos that each changed something, then k redos: every redo must restore exactly the state
+    that the matching undo left (so the k-th redo ends on the state before the first undo); a redo
+    entry disappears only through a new (saving) edit."""
+    if chain:
+        exp = chain.pop()
+        if post != exp:
+            if right_after_undo:
+                bad("Buffer.redo | not the state before undo", "redo right after undo did not restore exactly", *a)
+            elif post == pre:
+                bad("Buffer.redo | redo history lost without a new edit",
+                    f"redo did nothing although {len(chain) + 1} undone state(s) were pending (expected {exp})", *a)
+            else:
+                bad("Buffer.redo | k undos then k redos do not walk back",
+                    f"redo restored {post} instead of {exp}", *a)
+    elif exact and post != pre:
+        bad("Buffer.redo | restored something although nothing was undone since the last edit",
+            f"redo changed {pre} to {post}", *a)
+
+
 def api_oracle(case):
     v = []
 
@@ -179,7 +199,7 @@ def api_oracle(case):
     init_text = case["text"]
     streak = []         # states restored by the current streak of consecutive changing undos
     streak_log = None
-    last_undo_pre = None
+    chain, exact = [], True   # states the pending redos must restore (top last); exact = mirrors the whole redo history
     disciplined = bool(case.get("disc"))
     i = -1
     for i, op in enumerate(case["ops"]):
@@ -199,18 +219,24 @@ def api_oracle(case):
                 streak.append(post)
                 if not _greedy_desc(streak_log, streak):
                     bad("Buffer.undo | not in reverse chronological order", "successive undos do not walk back")
-                last_undo_pre = pre
+                chain.append(pre)
             else:
-                last_undo_pre = None
                 if b._undo_stack:
                     bad("Buffer.undo | no-op with non-empty stack", "undo did nothing but left entries")
         else:
             streak, streak_log = [], None
             if k == "redo":
-                if last_undo_pre is not None and post != last_undo_pre:
-                    bad("Buffer.redo | not the state before undo", "redo right after undo did not restore exactly")
+                _check_redo(chain, exact, pre, post, i > 0 and case["ops"][i - 1][0] == "undo", bad)
                 if post != pre and post not in log:
                     bad("Buffer.redo | restored state never held", "redo invented a state")
+            elif k == "save":
+                if op[1]:
+                    chain, exact = [], True          # a saving command boundary = a new edit: redo history goes
+            elif k == "reset":
+                chain, exact = [], True
+            else:
+                if chain:                            # an edit without a save keeps the redo stack; not tracked further
+                    chain, exact = [], False
             if k == "save" and op[1] and b._redo_stack:
                 bad("Buffer.save_to_undo_stack | redo history kept", "saving edit kept the redo stack")
             if k == "reset":
@@ -218,7 +244,6 @@ def api_oracle(case):
                 init_text = op[1]
                 if b._undo_stack or b._redo_stack:
                     bad("Buffer.reset | stacks kept", "reset kept undo/redo entries")
-            last_undo_pre = None
     if disciplined:
         n = len(b._undo_stack) + 1
         for _ in range(n):
@@ -514,7 +539,8 @@ def keys_oracle(case):
 
     log = []                     # states at command boundaries (before every handler call)
     streak, streak_log = [], None
-    last_undo_pre = None         # state right before the immediately preceding changing Buffer.undo()
+    chain, exact = [], True      # states the pending redos must restore (top last)
+    prev_step = None
     for i, r in enumerate(recs):
         pre, post = tuple(r["pre"]), tuple(r["post"])
         log.append(pre)
@@ -536,22 +562,27 @@ def keys_oracle(case):
                         if not _greedy_desc(streak_log, streak):
                             bad("Buffer.undo | not in reverse chronological order",
                                 "successive undos do not walk back", i)
-                        last_undo_pre = spre
-                    else:
-                        last_undo_pre = None
+                        chain.append(spre)
                 else:
                     streak, streak_log = [], None
-                    if last_undo_pre is not None and spost != last_undo_pre:
-                        bad("Buffer.redo | not the state before undo",
-                            "redo right after undo did not restore exactly", i)
+                    _check_redo(chain, exact, spre, spost, prev_step == "U", bad, i)
                     if spost != spre and spost not in log:
                         bad("Buffer.redo | restored state never held at an earlier boundary", "redo invented a state", i)
-                    last_undo_pre = None
+                prev_step = kind
             if post[0] != tuple(r["steps"][-1][2])[0]:
                 bad("undo/redo command | text changed after the restore", "handler changed the restored text", i)
         else:
             streak, streak_log = [], None
-            last_undo_pre = None
+            prev_step = None
+        if r["saved"]:
+            # the command boundary saved (with clear_redo_stack): a new edit, the redo history goes.
+            # (For an undo/redo handler that saves, the save precedes its undo()/redo() calls; such
+            # handlers are not shipped: their chain bookkeeping is simply dropped.)
+            if r["steps"]:
+                chain, exact = [], False
+            else:
+                chain, exact = [], True
+        if not r["steps"]:
             if post[0] != pre[0] and r["R"] and not odd:
                 bad("edit command | redo history kept", "a new edit did not discard the redo stack", i)
 
